@@ -219,7 +219,8 @@ var corruptions = []corruption{
 	}},
 	{"foreign-rewrite", func(w *World, u string, m *MUser, rec RefRecord, c string, r *Run) (string, corrCat) {
 		// an independent agent rewrites the record for another password under any configured set
-		set := w.cfg.Sets[r.Choose("fset", len(w.cfg.Sets))]
+		us := usableSets(w)
+		set := us[r.Choose("fset", len(us))]
 		salt := make([]byte, set.SaltLen())
 		for i := range salt {
 			salt[i] = byte(r.Choose("saltb", 256))
@@ -228,6 +229,15 @@ var corruptions = []corruption{
 		m.Set = set
 		m.Stamp = time.Now().Unix()
 		return RefWrite(set, m.PW, salt, m.Stamp) + "\n" + m.Aux, catValid
+	}},
+	{"record-of-unusable-set", func(w *World, u string, m *MUser, rec RefRecord, c string, r *Run) (string, corrCat) {
+		for _, s := range w.cfg.Sets {
+			if s.Algo == algoScrypt && s.Cost == 0 {
+				dig := []string{"", rec.DigB64, "AAAA"}[r.Choose("unusable-digest", 3)]
+				return recLine(s.Algo, fmt.Sprint(rec.Stamp), fmt.Sprint(s.ID), rec.SaltB64, dig) + "\n" + m.Aux, catEither
+			}
+		}
+		return c, catValid
 	}},
 	{"buffer-boundary-record", func(w *World, u string, m *MUser, rec RefRecord, c string, r *Run) (string, corrCat) {
 		// a foreign agent writes a correct argon2id record whose first line ends exactly at a
@@ -285,6 +295,17 @@ func FirstLineOnly(c string) string { l, _ := FirstLine(c); return l }
 func propC02(r *Run) {
 	inBubble(r, func(rr *randRecorder) {
 		cfg := GenConfig(r, "/srv/whawty/base")
+		if r.Choose("with-unusable-set", 4) == 0 {
+			// a parameter set the loader accepts but whose key derivation always fails (scrypt with
+			// cost 0, i.e. N = 1): nothing can verify under it - certainly not an empty digest
+			id := uint(770077)
+			for _, s := range cfg.Sets {
+				if s.ID == id {
+					id++
+				}
+			}
+			cfg.Sets = append(cfg.Sets, PSet{ID: id, Algo: algoScrypt, Key: keyN(0), Cost: 0})
+		}
 		w := newWorld(r, rr, cfg, 1)
 		users := w.populate(2 + r.Choose("nusers", 3))
 		d := w.dirs[0]
@@ -408,6 +429,17 @@ func removeStr(s []string, x string) []string {
 	for _, v := range s {
 		if v != x {
 			out = append(out, v)
+		}
+	}
+	return out
+}
+
+// usableSets: the configured sets whose key derivation works (C02 may add one that never does).
+func usableSets(w *World) []PSet {
+	var out []PSet
+	for _, s := range w.cfg.Sets {
+		if !(s.Algo == algoScrypt && s.Cost == 0) {
+			out = append(out, s)
 		}
 	}
 	return out
